@@ -46,7 +46,7 @@ def main(ctx):
     import json
     from lib import sandbox
     scale = sandbox.time_scale()
-    rc, obs, log = sandbox.run_driver('harness.procs_main', [ctx.tier, json.dumps(jobs)],
+    rc, obs, log = sandbox.run_driver_patient('process', 'harness.procs_main', [ctx.tier, json.dumps(jobs)],
                                       timeout=(1500 if thorough else 400) * scale,
                                       env={'VERIF_TIME_SCALE': str(scale)})
     if rc != 0 or obs is None:
